@@ -233,7 +233,8 @@ def run_check(prop, mode, tier, seed, replay, resources, quick=(16, 30), thoroug
                 f.write(rp["wit"])
             import re as _re
             m = _re.findall(r"^world\s+(%?[a-z0-9-]+)", rp["wit"], _re.M)
-            worlds = [{"dir": d, "world": m[-1].lstrip("%") if m else "w", "opts": rp.get("opts", "default"), "origin": "replay", "tags": [], "index": 0}]
+            wname = rp.get("world") or (m[-1].lstrip("%") if m else "w")
+            worlds = [{"dir": d, "world": wname, "opts": rp.get("opts", "default"), "origin": "replay", "tags": [], "index": 0}]
             seed = int(rp.get("seed", seed))
             if "func_index" in rp:
                 only = (rp["func_index"], rp.get("set", 0))
@@ -302,6 +303,8 @@ def merge(rep, results, prop):
                     rpl["set"] = int(m.group(3))
                 if kind in ("timeout", "crash") or fk is None:
                     rep.inconc("run of the echo machine ended abnormally without a generated-code frame (%s): %s" % (kind, text[-160:].replace("\n", " ")))
+                elif prop == "C10" and kind == "leak":
+                    rep.inconc("LeakSanitizer report at exit (ownership is judged by C11)")
                 elif prop == "C11" or kind == "ub":
                     rep.violation("c-mem:%s:%s" % (kind, fk), "sanitizer report in generated code (%s) during %s [options %s, build %s]: %s"
                                   % (fk, b["last_call"], w["opts"], b["build"], text[-700:]), rpl)
